@@ -24,6 +24,9 @@ REORDER = {'slice', 'shuffle_once', 'sort', 'shard', 'filter', 'concat', 'inters
            'local_shuffle', 'tile'}
 
 
+ENUM_DEPTH = {'quick': 2, 'thorough': 3}
+
+
 def plan(tier):
     return {'shards': SHARDS[tier]}
 
@@ -67,4 +70,6 @@ def run_shard(tier, idx, nshards, rec, known):
     if out.violation:
         case, sig, detail = out.violation
         out.violation = ({'ast': case, 'program': progs.show(case)}, sig, detail)
-    return [out]
+        return [out]
+    # bounded-exhaustive part: every chain of <= ENUM_DEPTH[tier] stage templates over every small source
+    return [out, progcheck.run_enum(lambda node: check_program(node, rec), rec, known, ENUM_DEPTH[tier], idx, nshards)]
